@@ -168,7 +168,7 @@ Proof. unfold get_thread. now rewrite upd_vis_threads. Qed.
 (* ---- the instance goroutine's own events ------------------------------------------------------------------- *)
 Definition own_trans (s : sys) (th : tid) (e : event) (x x' : inst) : Prop :=
   match e with
-  | EDepWait k found => exists todo c, pc x = IDeps todo /\ dep_cond (cf x) k = Some c /\
+  | EDepWait k found => exists todo c, pc x = IDeps todo /\ memN k todo = true /\ dep_cond (cf x) k = Some c /\
         thread_lookup (get_thread s th) k = Some found /\
         pc x' = match found with None => IDeps (removeN k todo) | Some j => IBlocked k c j (removeN k todo) end
   | EDepDone k ok => exists c j todo y, pc x = IBlocked k c j todo /\ get j (insts s) = Some y /\ latch_released c y = true /\
@@ -368,7 +368,7 @@ Proof.
   constructor; auto. intros j. destruct (N.eqb_spec j i).
   - subst j. rewrite Hx. exists x'. repeat split; auto.
     destruct e; cbn in Tr; try (left; exact (proj1 Tr)).
-    + destruct Tr as (todo & c & P1 & P2 & P3 & P4). right. destruct found as [j|]; [|left; eauto].
+    + destruct Tr as (todo & c & P1 & P0 & P2 & P3 & P4). right. destruct found as [j|]; [|left; eauto].
       right; right. exists k, c, j, (removeN k todo). repeat split; auto.
       eapply thread_lookup_ok; [apply (mi_lk _ M th)|exact P3].
     + destruct Tr as (c & j & todo & y & P1 & P2 & P3 & P4 & P5). right. destruct ok; [left; eauto|right; left; exact P5].
